@@ -102,10 +102,14 @@ theorem powMod_eq (m fuel a e : ℕ) (h : e < fuel) : powMod m fuel a e = a ^ e 
           ring
         rw [this]
 
-theorem powU32_eq (bits a e : ℕ) :
-    powU32 bits a e = if e < 2 ^ bits then some (a ^ e % 2 ^ bits) else none := by
+theorem powU32_eq (bits a e : ℕ) (ha : a < 2 ^ bits) : powU32 bits a e = a ^ e % 2 ^ bits := by
   unfold powU32 wpow
-  rw [powMod_eq _ _ _ _ (Nat.lt_succ_self e)]
+  by_cases hb : bits = 0
+  · subst hb
+    have : a = 0 := by simpa using ha
+    subst this
+    simp [Nat.mod_one]
+  · rw [if_neg hb, powMod_eq _ _ _ _ (Nat.lt_succ_self e)]
 
 theorem prevMultipleOf_spec (bits a b : ℕ) (hb : 0 < b) (ha : a < 2 ^ bits) :
     ∃ r, prevMultipleOf bits a b = some r ∧ b ∣ r ∧ r ≤ a ∧ a < r + b := by
